@@ -15,7 +15,7 @@ CONSTANTS
   MaxCtr = 1
   LoadCap = 1
   MaxReq = 0
-  CmdsOf <- C10Two
+  CmdsOf <- C10Env2
   Export = FALSE
 SPECIFICATION Spec
 INVARIANT SessionsIsolated
